@@ -8,7 +8,7 @@ VERDICT = 'C12_verdict'
 PROPS_FILE = 'theories/Props/C12.v'
 THEOREM = 'C12_load_at_most_once'
 RULE = ('random operation sequences (1-40 ops) over 1-4 handles placed at depth 1-3 of a '
-        'ResourceMap, loaded values drawn from None/0/0.0/""/[]/{}/objects with '
+        'ResourceMap under identifier and non-identifier names, loaded values drawn from None/0/0.0/""/[]/{}/objects with '
         '__bool__ False, __eq__ always True, __eq__ always False / a World; 15% of the accesses '
         'are scripted to make load() raise if they trigger a load; each access '
         'goes through one of 6 paths (h(), m[path], static attribute, static item, '
@@ -37,6 +37,7 @@ def gen(rng, tier):
         if rng.random() < 0.35:        # loop-heavy case: mostly world handles
             kinds = [k if rng.random() < 0.3 else 'world' for k in kinds]
         depth = [rng.randint(1, 3) for _ in range(nh)]
+        names = [rng.randrange(25) if rng.random() < 0.6 else 0 for _ in range(nh)]
         ops = []
         for _ in range(rng.randint(1, 40)):
             h = rng.randrange(nh)
@@ -55,7 +56,7 @@ def gen(rng, tier):
                 # last item: load() raises if this access triggers a load
                 ops.append(['access', h, rng.choice(PATHS), rng.randrange(1000),
                             rng.random() < 0.15])
-        cases.append(dict(kinds=kinds, depth=depth, ops=ops))
+        cases.append(dict(kinds=kinds, depth=depth, names=names, ops=ops))
     return cases
 
 
@@ -107,7 +108,12 @@ def run(case):
     hs, keys = [], []
     for i, (kind, d) in enumerate(zip(case['kinds'], case['depth'])):
         h = H(kind)
-        key = '/'.join(['d%d_%d' % (i, j) for j in range(d - 1)] + ['h%d' % i])
+        # name styles: identifiers, and names that are not identifiers
+        # (extensions, dashes, leading digits, private-looking)
+        style = case.get('names', [0] * len(case['kinds']))[i]
+        leaf = ['h%d', 'h-%d.png', '%dd', '__h%d', 'tile set %d'][style % 5] % i
+        dirs = ['d%d_%d', 'd-%d.%d', '%d_%d', '_d%d_%d', 'dir %d %d'][(style // 5) % 5]
+        key = '/'.join([dirs % (i, j) for j in range(d - 1)] + [leaf])
         root[key] = h
         hs.append(h)
         keys.append(key)
